@@ -37,7 +37,7 @@ type BagModel struct {
 	Msgs  []BagMsg
 	// layout
 	Chunked          bool
-	Compression      string // "none" or "lz4"
+	Compression      string // "none", "lz4", or "mixed" (chunks alternate lz4, none, lz4, ...)
 	MsgsPerChunk     int
 	RepeatConnEvery  bool // repeat the connection record in every chunk that uses it
 	IndexSection     bool // connection + chunk info records after the last chunk
@@ -130,6 +130,7 @@ func (b *BagModel) Encode(fields *[]FieldPos) ([]byte, error) {
 			p += 4 + int(le.Uint32(h0[p:]))
 		}
 	}
+	nChunks := 0
 	connByID := map[uint32]*BagConn{}
 	for i := range b.Conns {
 		connByID[b.Conns[i].ID] = &b.Conns[i]
@@ -204,7 +205,12 @@ func (b *BagModel) Encode(fields *[]FieldPos) ([]byte, error) {
 			}
 		}
 		stored := raw
-		switch b.Compression {
+		comp := b.Compression
+		if comp == "mixed" {
+			comp = []string{"lz4", "none"}[nChunks%2]
+		}
+		nChunks++
+		switch comp {
 		case "none":
 		case "lz4":
 			var cb bytes.Buffer
@@ -219,7 +225,7 @@ func (b *BagModel) Encode(fields *[]FieldPos) ([]byte, error) {
 		default:
 			return nil, fmt.Errorf("unsupported compression %q", b.Compression)
 		}
-		h := header(KV{"op", "\x05"}, KV{"compression", b.Compression}, KV{"size", u32s(uint32(len(raw)))})
+		h := header(KV{"op", "\x05"}, KV{"compression", comp}, KV{"size", u32s(uint32(len(raw)))})
 		out = appendRecord(out, h, stored, fields, "chunk")
 		if b.IndexDataRecords {
 			for _, id := range ci.order {
